@@ -20,6 +20,7 @@ import (
 	"strconv"
 	"strings"
 	"sync"
+	"unicode/utf8"
 
 	"github.com/segmentio/encoding/json"
 )
@@ -564,6 +565,52 @@ func c10EncodedRaw(c *Ctx) {
 	}
 }
 
+// c10LongKeys: member names of every length around the decoder's 64-byte scratch buffer, with upper-case letters and
+// other foldable runes, that match a field only case-insensitively or not at all: the input bytes are the caller's
+func c10LongKeys(c *Ctx) {
+	type tgt struct {
+		A     int
+		Alpha int `json:"aBcDeFgHiJkLmNoPqRsTuVwXyZaBcDeFgHiJkLmNoPqRsTuVwXyZaBcDeFgHiJkLmNoPqRsTuVwXyZ0123456789"`
+	}
+	for _, n := range []int{1, 8, 63, 64, 65, 66, 88, 100, 128, 129, 300} {
+		for _, alphabet := range []string{"AbCdEfGhIjKlMnOpQrStUvWxYz", "ABCDEFGHIJKLMNOPQRSTUVWXYZ", "ÀÉÎK", "abcdefghijklmnopqrstuvwxyz"} {
+			name := ""
+			for len(name) < n {
+				name += alphabet
+			}
+			name = name[:n]
+			for !utf8.ValidString(name) {
+				name = name[:len(name)-1]
+			}
+			for _, doc := range []string{`{"` + name + `":1,"A":2}`, `{"A":1,"` + strings.ToUpper("aBcDeFgHiJkLmNoPqRsTuVwXyZaBcDeFgHiJkLmNoPqRsTuVwXyZaBcDeFgHiJkLmNoPqRsTuVwXyZ0123456789") + `":3,"` + name + `":{"` + name + `":[]}}`} {
+				for fi, fl := range []json.ParseFlags{0, json.ZeroCopy, json.DontMatchCaseInsensitiveStructFields, json.DontCopyString} {
+					in := []byte(doc)
+					k := c10WideCase{API: fmt.Sprintf("long keys n=%d flags=%d", n, fi), Val: -10}
+					var t tgt
+					c.Case()
+					c.Eval(1)
+					if p := protect(func() { json.Parse(in, &t, fl) }); p != "" {
+						c.Diverge("C10", "json.Parse(member names around the scratch buffer)", "no panic", p, "", k)
+						continue
+					}
+					if string(in) != doc {
+						c.Diverge("C10", "json.Parse(member names around the scratch buffer)", "lent input unchanged", "input modified: "+clipS(string(in)), "", k)
+					}
+				}
+				in := []byte(doc)
+				var t tgt
+				json.Unmarshal(in, &t)
+				var t2 tgt
+				d := json.NewDecoder(bytes.NewReader(in))
+				d.Decode(&t2)
+				if string(in) != doc {
+					c.Diverge("C10", "json.Unmarshal / Decoder(member names around the scratch buffer)", "lent input unchanged", "input modified: "+clipS(string(in)), "", c10WideCase{API: fmt.Sprintf("long keys n=%d", n), Val: -10})
+				}
+			}
+		}
+	}
+}
+
 func c10DecoderStreams(c *Ctx) {
 	type kept struct {
 		v    reflect.Value
@@ -645,7 +692,7 @@ func c10DecoderStreams(c *Ctx) {
 }
 
 func c10Wide(c *Ctx, shape *jShape) {
-	c10HugeOnce.Do(func() { c10Huge(c); c10EncoderHistories(c); c10DecoderStreams(c); c10EncodedRaw(c) })
+	c10HugeOnce.Do(func() { c10Huge(c); c10EncoderHistories(c); c10DecoderStreams(c); c10EncodedRaw(c); c10LongKeys(c) })
 	t := jTypeOf(shape)
 	r := newRng(c.Seed, "c10wide"+shape.String())
 	docs := c10Docs(shape, c.Seed, r, c.Tier)
@@ -694,6 +741,9 @@ func c10WideReplay(c *Ctx, k c10WideCase) {
 		}
 		if k.Val == -9 {
 			c10EncodedRaw(c)
+		}
+		if k.Val == -10 {
+			c10LongKeys(c)
 		}
 		if k.Val > 100000 {
 			c10Huge(c)
